@@ -4,12 +4,13 @@
 // (a suffix of the file, the whole file unless it stopped strictly before --dt-after):
 //   * the last message is dated in the year of the file's modification time read in the log's zone;
 //   * every earlier message k is dated in a year y[k] <= y[k+1] such that time does not run backwards from k to k+1 by more than
-//     the threshold (a day and an hour), and the year steps back only where it would have;
+//     the threshold (25 hours, as the project documents), and the year steps back only where it would have;
 // which is the statement of C11 phrased over inst().
 // Assumed by contract (stand-ins): SyslineReader::find_sysline_year (the message that covers the offset -- proved in unit SLN --
 // dated in the year given; a stored message is handed back as stored; chrono has no instants before year -262143),
 // remove_sysline, clear_syslines, dt_after_or_before (units FLT / SRCH), systemtime_to_datetime / DateTime accessors, DateTime
-// subtraction / comparison by instants, the lazy_static threshold as an opaque constant.  Termination is not proved (the year is
+// subtraction / comparison by instants (nanoseconds), chrono::Duration constructors and whole-unit accessors.  The threshold is
+// not assumed: the lazy_static item's initialiser is cut from the source as a function and proved to be 25 hours.  Termination is not proved (the year is
 // lowered until the jump is gone; that this ends is a calendar fact).
 #![allow(unused_imports, non_camel_case_types, dead_code, unused_variables, unused_parens, unused_mut, unused_assignments, non_snake_case, unused_labels)]
 use vstd::prelude::*;
